@@ -21,7 +21,7 @@ META = dict(
     technique='Coq proof (recursive-descent parser model vs the precedence grammar; calc/compile/print model) + differential correspondence of the extracted model against ledger + reference evaluator',
     level_text='Theorems in coq/Properties/Properties_C15.v state, for all expressions of the operator grammar, that the model of parser.cc parses the minimally parenthesised text (and any more heavily parenthesised one) of an abstract expression to exactly its tree (precedence unary > * / > + - > comparisons > & > | > ?:, left associativity, parentheses override), that op_t::print output parses back to the same tree, conditionals included, that the tokenizer model reads every operator spelling, word operator and boolean back from its text whatever the number of blanks between tokens and skips white space in front of any token, that & | ?: evaluate only the operands the grammar says, that compiled identifiers keep the meaning they had at definition - in particular that a reference to a user-defined function is bound where it is written, whatever is defined later and whatever parameters its callers have (over the identifier-resolution lines of op.cc re-read on every run) -, and that constant folding and compilation preserve values. The model is tied to the code by running thousands of generated expressions through freshly built ledger (text as parsed, exact values through verif_rational, re-parse of the printed text) and through the extracted model.',
     level_note='Trusted: Coq kernel; extraction + OCaml driver and python harness for the correspondence; the tokenizer is modelled (Model/ExprLex.v) and the model is given the expression text; its round trip is proved for the fixed-spelling tokens only (identifiers and literals: computed examples + correspondence); value arithmetic is Model/Amount.v (C03). Not modelled: strings, dates, regex masks, member lookup (each a lexing failure in the model), sequences as values, per-SCOPE symbol tables (use-before-definition inside a body).',
-    design_ref='DESIGN.md section 7 C15, section 9 F1, F35-F37, F215 (F6 and F34 repaired)',
+    design_ref='DESIGN.md section 7 C15, section 9 F1, F35-F37, F216 (F6 and F34 repaired)',
     assumptions=['expressions avoid built-in function names, the predefined time commodities s/m/h and reserved words as identifiers',
                  'INTEGER values stay within C long',
                  'identifiers are defined before use; every binder name in an expression is distinct (except in the directed scoping cases)',
